@@ -12,7 +12,8 @@ RULE = (
     "-2..3, under the documented preconditions (sorted starts; non-overlapping containers for containment; sorted "
     "thing endtimes for exact touching windows; non-overlapping things and intervals for time-to-neighbour); "
     "overlap_indices over all (a1,n_a,b1,n_b) in a box; diff/_find_break_i/from_break over all arrays; "
-    "sort_by_time over all unsorted (time,channel) arrays; unsorted inputs must be rejected. "
+    "sort_by_time over all unsorted (time,channel) arrays of <=4-5 rows, and over deterministic tie-heavy families of 15..1000 rows "
+    "(8 key patterns x 3 channel patterns x 14 sizes around the usual insertion-sort cut-offs) against a stable lexsort; unsorted inputs must be rejected. "
     "non-trivial: at least one thing and one container (resp. >=2 rows); distinct by input."
 )
 ASSUMPTIONS = [
@@ -337,7 +338,56 @@ def job_sort(res, n, shard, nshards):
     res.sample(dict(sub="sort", rows=[(2, 0), (0, 3), (0, -1)]), cap=1)
 
 
-SUBS = dict(pairs=job_pairs, overlap=job_overlap, diff=job_diff, unsorted=job_unsorted, sort=job_sort)
+# deterministic families of LONGER arrays with many ties: library sorts switch algorithm with the input size (an unstable sort is
+# typically stable below its insertion-sort cut-off of ~16 elements), so stability has to be checked beyond the exhaustive sizes
+SORT_SIZES = (15, 16, 17, 20, 31, 32, 33, 47, 64, 65, 100, 129, 257, 1000)
+SORT_KEYS = {
+    "const": lambda i, n: 0,
+    "mod2": lambda i, n: i % 2,
+    "mod3": lambda i, n: i % 3,
+    "rev_mod2": lambda i, n: (n - i) % 2,
+    "blocks_desc": lambda i, n: (n - i) // 8,
+    "lcg5": lambda i, n: (i * 7 + 3) % 5,
+    "saw": lambda i, n: min(i, n - i) % 4,
+    "two_far": lambda i, n: 0 if i % 5 else 3,
+}
+SORT_CH = {"const": lambda i: 0, "alt": lambda i: i % 2, "desc3": lambda i: 2 - i % 3}
+
+
+def job_sort_long(res):
+    for n in SORT_SIZES:
+        for kn, kf in SORT_KEYS.items():
+            for cn, cf in SORT_CH.items():
+                res.evals += 1
+                res.nt("sl", n, kn, cn)
+                case = dict(sub="sortlong", n=n, key=kn, chan=cn)
+                t = np.array([kf(i, n) for i in range(n)], np.int64)
+                c = np.array([cf(i) for i in range(n)], np.int16)
+                x = np.zeros(n, SORT_DT)
+                x["time"], x["endtime"], x["channel"], x["rid"] = t, t + 1, c, np.arange(n)
+                exp = np.lexsort((np.arange(n), c, t))  # (time, channel), ties in input order
+                try:
+                    a = strax.sort_by_time(x.copy())
+                    if list(a["rid"]) != list(exp):
+                        bad = int(np.argmax(a["rid"] != exp))
+                        res.violation("sort:long:wrong-or-unstable", f"n={n} key={kn} channel={cn}: first difference at position {bad}: row {a['rid'][bad]} instead of {exp[bad]}", case)
+                    y = np.zeros(n, SORT_DT_NOCH)
+                    y["time"], y["endtime"], y["rid"] = t, t + 1, np.arange(n)
+                    b = strax.sort_by_time(y)
+                    exp2 = np.lexsort((np.arange(n), t))
+                    if list(b["rid"]) != list(exp2):
+                        res.violation("sort:long:nochannel-wrong-or-unstable", f"n={n} key={kn}: ties not kept in input order", case)
+                    for f in (strax.stable_argsort,):
+                        if list(f(t)) != list(exp2):
+                            res.violation("sort:long:stable_argsort", f"n={n} key={kn}", case)
+                    if list(strax.stable_sort(t)) != sorted(t.tolist()):
+                        res.violation("sort:long:stable_sort", f"n={n} key={kn}", case)
+                except Exception as e:
+                    res.violation(f"sort:long:raised:{type(e).__name__}", str(e)[:200], case)
+    res.sample(dict(sub="sortlong", sizes=SORT_SIZES, keys=sorted(SORT_KEYS), channels=sorted(SORT_CH)), cap=1)
+
+
+SUBS = dict(sortlong=job_sort_long, pairs=job_pairs, overlap=job_overlap, diff=job_diff, unsorted=job_unsorted, sort=job_sort)
 
 
 def plan(tier, seed):
@@ -359,6 +409,7 @@ def plan(tier, seed):
         jobs += [("diff", n, g, s, ns) for s in range(ns)]
     for n, ns in sorts:
         jobs += [("sort", n, s, ns) for s in range(ns)]
+    jobs.append(("sortlong",))
     jobs.append(("overlap", ov))
     jobs.append(("unsorted", 4))
     return jobs
@@ -395,6 +446,9 @@ def replay(case):
         elif s == "unsorted":
             job_unsorted(res, 4)
             res.violations = [v for v in res.violations if v["case"]["fn"] == case["fn"]][:1]
+        elif s == "sortlong":
+            job_sort_long(res)
+            res.violations = [v for v in res.violations if all(v["case"].get(k) == case[k] for k in ("n", "key", "chan"))]
         elif s.startswith("sort"):
             job_sort(res, len(case["rows"]), 0, 1)
             res.violations = [v for v in res.violations if [list(r) for r in v["case"].get("rows", [])] == [list(r) for r in case["rows"]]]
